@@ -29,13 +29,14 @@ LEVEL_TEXT = (
     'fact is decided directly: the scope builders are equal as string '
     'constructions, and the selection loops agree clause by clause on every '
     'path. This is strong for the mechanism; it does not execute models.'
+    " Simulations over listed lattices: the three selection loops hand the same operators to the algorithm (also resumed / loaded), calibrate-then-plan never lacks statistics, need_calibration() is sound w.r.t. resolution, the signature's declared subgraph is used."
 )
 LEVEL_NOTE = (
     'Trusted: the sa CFG/def-use engines. Not decided: that the interpreter '
     'exposes every tensor the flatbuffer names (runtime), regex engine '
     'behaviour.'
 )
-TECHNIQUE = 'sibling comparison of normalised code + CFG must-pass rules (static)'
+TECHNIQUE = 'sibling comparison of normalised code + CFG must-pass rules + selection / calibrate-then-plan simulations and resolution tables (abstract interpretation over a finite lattice) (static)'
 
 CAL = 'calibrator:Calibrator'
 PG = 'params_generator:ParamsGenerator'
